@@ -20,7 +20,7 @@ Definition ptp (l : list R) : R :=
   match l with [] => 0 | a :: t => fold_left Rmax t a - fold_left Rmin t a end.
 Definition r2d : R := 180 / PI.      (* RAD2DEG *)
 Definition d2r : R := PI / 180.      (* DEG2RAD *)
-Definition dt100 : R := 1 / 100.     (* 1 / frequency of the traced instances *)
+Definition dt100 : R := 1 / 100.     (* 1 / frequency of the default traced instances; other traced rates: 1/50, 1/333 *)
 
 (* what QuaternionArray.to_angles returns for one row: roll, pitch, yaw *)
 Definition rpy_of (q : list R) : list R :=
@@ -42,9 +42,9 @@ Definition Rzyx (ro pi ya : R) : list R := mmul3 (Rz ya) (mmul3 (Ry pi) (Rx ro))
 (* gyroscope bias: Pdeg = ptp of the noise-free rates in deg/s of a three-row trajectory (w_0 = 0: the three zeros of
    row 0 enter as one 0); the bias drawn is (u - 1/2) Pdeg / 200 deg/s; in radians mode the code multiplies it by
    DEG2RAD twice - before adding it to the deg/s signal and again with the signal *)
-Definition Pdeg (q0 q1 q2 : list R) : R := ptp (0 :: scale3 r2d (rate dt100 q0 q1) ++ scale3 r2d (rate dt100 q1 q2)).
-Definition bias_deg (q0 q1 q2 : list R) (u0 u1 u2 : R) : list R := scale3 (Pdeg q0 q1 q2 / 200) [u0 - 1/2; u1 - 1/2; u2 - 1/2].
-Definition bias_rad (q0 q1 q2 : list R) (u0 u1 u2 : R) : list R := scale3 (d2r * d2r) (bias_deg q0 q1 q2 u0 u1 u2).
+Definition Pdeg (dt : R) (q0 q1 q2 : list R) : R := ptp (0 :: scale3 r2d (rate dt q0 q1) ++ scale3 r2d (rate dt q1 q2)).
+Definition bias_deg (dt : R) (q0 q1 q2 : list R) (u0 u1 u2 : R) : list R := scale3 (Pdeg dt q0 q1 q2 / 200) [u0 - 1/2; u1 - 1/2; u2 - 1/2].
+Definition bias_rad (dt : R) (q0 q1 q2 : list R) (u0 u1 u2 : R) : list R := scale3 (d2r * d2r) (bias_deg dt q0 q1 q2 u0 u1 u2).
 
 Ltac unfold_c20 := cbv [body add3 scale3 norm3 unit3 vecpart rate ptp fold_left app r2d d2r dt100 Pdeg bias_deg bias_rad]; unfold_rot.
 
